@@ -196,6 +196,11 @@ macro_rules! body {
                 let mut res = module.vec_znx_big_alloc(1, rs);
                 $go(module.cnv_by_const_apply_tmp_bytes(off, rs, asz, bl), &mut |s: &mut Scratch<$T>| {
                     module.cnv_by_const_apply(off, &mut res, 0, &a, 0, &b, s); res.data.as_ref().to_vec() }) }
+            60 => { // Scratch::split_mut(threads, len) on exactly threads * len bytes [be n threads len]
+                let (th, len) = (u(p[2]), u(p[3]));
+                $go(th * len, &mut |s: &mut Scratch<$T>| {
+                    let (parts, _) = s.split_mut(th, len);
+                    parts.iter().map(|x| x.data.len() as u8).collect() }) }
             // ------------------------------------------------------------------ core
             101 | 102 => { // lwe_encrypt_sk / lwe_decrypt [be n_module n_lwe base2k k]
                 let (nl, b2k, k) = (p[2] as u32, p[3] as u32, p[4] as u32);
@@ -447,12 +452,13 @@ fn min_n(op: i64, fft: bool) -> i128 {
     match op {
         11..=14 | 21 => 2,
         30 | 31 | 32 => if fft { 8 } else { 2 }, // NTT120 vmp works on x2 blocks (debug_assert!(n >= 2)); FFT64 on blocks of 4 complex
-        40 | 50..=52 => if fft { 2 } else { 1 },
-        53 | 55 => 2, // NTT120 convolution kernels work on x2 blocks (n / 2 of them)
+        40 => if fft { 2 } else { 1 },
+        50..=52 => if fft { 8 } else { 1 },
+        53..=55 | 116 => if fft { 8 } else { 2 }, // FFT64 convolution kernels loop over m/4 (n/8) blocks, NTT120 over n/2 x2-blocks
         103 | 105 | 118 => if fft { 2 } else { 1 },
         104 => 8, // glwe_public_key_generate (set-up of the record) itself allocates glwe_encrypt_sk_tmp_bytes and panics below 8
         106..=109 | 120..=124 => if fft { 8 } else { 2 },
-        125 | 126 => 2,
+        125 | 126 => if fft { 8 } else { 2 },
         110..=112 => if fft { 8 } else { 2 },
         115 => 2,
         _ => 1,
@@ -513,7 +519,12 @@ pub fn generate(tier: &str, seed: u64) -> Vec<Rec> {
                     g.push(53, vec![be, n, off, rs, asz, bsz], dense, true);
                     g.push(55, vec![be, n, off, rs, asz, bsz], dense, true);
                 }
-                g.push(54, vec![be, n, off, rs, asz, bsz], dense, true);
+                if ok(54) { g.push(54, vec![be, n, off, rs, asz, bsz], dense, true); }
+            }
+            if n == 8 {
+                for &(th, len) in &[(1i128, 320144i128), (2, 320144), (3, 100), (4, 4096), (2, 64), (5, 0), (3, 8)] {
+                    g.push(60, vec![be, n, th, len], true, true);
+                }
             }
             // ---- core
             let dense_core = refbe || n <= 4;
@@ -589,7 +600,7 @@ pub fn generate(tier: &str, seed: u64) -> Vec<Rec> {
             for &(rb, rk, ab, ak, bl, off) in &[(17i128, 34i128, 17i128, 34i128, 1i128, 0i128), (17, 51, 17, 34, 2, 17), (17, 51, 15, 45, 3, 40), (12, 36, 12, 36, 2, 0)] {
                 let mut ps = vec![be, n];
                 ps.extend(&inf(rb, rk, 1, 1, 0, 1)); ps.extend(&inf(ab, ak, 1, 1, 0, 1)); ps.push(bl); ps.push(off);
-                g.push(116, ps, dense_core, true);
+                if ok(116) { g.push(116, ps, dense_core, true); }
                 // oracle-only (no take tree): glwe_mul_plain, glwe_tensor_apply
                 if ok(125) {
                     let mut q = vec![be, n];
